@@ -30,6 +30,7 @@ var (
 	ErrRefused = errors.New("simnet: connection refused")
 	ErrInjWrite = errors.New("simnet: injected write error")
 	ErrInjRead  = errors.New("simnet: injected read error")
+	ErrFrameTooLarge = errors.New("simnet: implausible frame length")
 )
 
 type timeoutErr struct{}
@@ -56,6 +57,7 @@ type half struct {
 	wclosed bool     // writer closed: EOF after drain
 	rst     error    // reader sees this error immediately
 	notify  chan struct{}
+	drained chan struct{} // signalled when the reader consumed something (bounded send buffers)
 	written int // total bytes/packets written
 	read    int // total bytes/packets consumed by the reader
 	frames  []Frame
@@ -65,6 +67,13 @@ type half struct {
 func (h *half) signal() {
 	select {
 	case h.notify <- struct{}{}:
+	default:
+	}
+}
+
+func (h *half) signalDrained() {
+	select {
+	case h.drained <- struct{}{}:
 	default:
 	}
 }
@@ -176,8 +185,8 @@ func (n *Net) Dial(ctx context.Context, network, addr string) (net.Conn, error) 
 }
 
 func (n *Net) pair(stream bool, addr string) (*Conn, *Conn) {
-	c2s := &half{stream: stream, notify: make(chan struct{}, 1)}
-	s2c := &half{stream: stream, notify: make(chan struct{}, 1)}
+	c2s := &half{stream: stream, notify: make(chan struct{}, 1), drained: make(chan struct{}, 1)}
+	s2c := &half{stream: stream, notify: make(chan struct{}, 1), drained: make(chan struct{}, 1)}
 	id := len(n.conns)
 	c := &Conn{Net: n, ID: id, side: "c", Stream: stream, rd: s2c, wr: c2s, closedCh: make(chan struct{}), addr: addr}
 	s := &Conn{Net: n, ID: id, side: "s", Stream: stream, rd: c2s, wr: s2c, closedCh: make(chan struct{}), addr: addr}
@@ -210,6 +219,15 @@ type Conn struct {
 	Reads       int
 
 	clientIP string
+	// SendBuf bounds how many unread bytes this end may have in flight towards the
+	// peer (stream only, 0 = unbounded): a Write blocks while the peer's receive
+	// buffer is full, until the peer reads, the write deadline passes, or the
+	// connection is closed - the "slow reader" fault.
+	SendBuf  int
+	// MaxFrame: ReadMsg refuses length prefixes above this (0 = no limit); lets a
+	// harness notice a garbage frame at once instead of waiting for its "body".
+	MaxFrame int
+	wlock    chan struct{} // serialises whole Write calls, as the fd write lock does
 	DialTask int // id of the task that dialled
 	DialAt   time.Duration
 	DialStep int
@@ -290,6 +308,7 @@ func (c *Conn) SetReadDeadline(t time.Time) error {
 
 func (c *Conn) SetWriteDeadline(t time.Time) error {
 	c.wdl = t
+	c.wr.signalDrained() // wake a blocked writer so that it re-arms its timer
 	return nil
 }
 
@@ -327,6 +346,7 @@ func (c *Conn) Read(p []byte) (int, error) {
 				copy(p, h.buf[:n])
 				h.buf = h.buf[n:]
 				h.read += n
+				h.signalDrained()
 				c.noteConsumed()
 				return n, nil
 			}
@@ -429,6 +449,58 @@ func (c *Conn) write(p []byte, tag any, framed bool) (int, error) {
 	}
 	h := c.wr
 	cp := append([]byte(nil), p...)
+	if h.stream && c.SendBuf > 0 {
+		// bounded send buffer: may block, may end in a partial write.
+		// Concurrent Write calls on one connection do not interleave: like the
+		// kernel fd write lock, one call runs to its end before the next starts.
+		if c.wlock == nil {
+			c.wlock = make(chan struct{}, 1)
+		}
+		simrt.Send(siteWrite, c.wlock, struct{}{})
+		defer func() { <-c.wlock }()
+		written := 0
+		for written < len(cp) {
+			if c.closed {
+				return written, &net.OpError{Op: "write", Net: "sim", Err: net.ErrClosed}
+			}
+			if space := c.SendBuf - len(h.buf); space > 0 {
+				n := len(cp) - written
+				if n > space {
+					n = space
+				}
+				h.buf = append(h.buf, cp[written:written+n]...)
+				h.written += n
+				written += n
+				h.signal()
+				continue
+			}
+			simrt.Probe("simnet.write_blocked_on_slow_reader")
+			var tc <-chan time.Time
+			var tm *time.Timer
+			if !c.wdl.IsZero() {
+				d := time.Until(c.wdl)
+				if d <= 0 {
+					simrt.Fault("write_deadline_partial_write")
+					c.Net.logf(c, "write_timeout_partial", written, tag)
+					return written, &net.OpError{Op: "write", Net: "sim", Err: timeoutErr{}}
+				}
+				tm = time.NewTimer(d)
+				tc = tm.C
+			}
+			simrt.Select(siteWrite, false, simrt.R(h.drained, nil, nil), simrt.R(tc, nil, nil), simrt.R(c.closedCh, nil, nil), simrt.R(c.peer.closedCh, nil, nil))
+			if tm != nil {
+				tm.Stop()
+			}
+			if c.peer.closed {
+				return written, &net.OpError{Op: "write", Net: "sim", Err: ErrReset}
+			}
+		}
+		if framed {
+			h.frames = append(h.frames, Frame{End: h.written, Data: cp, Tag: tag})
+		}
+		c.Net.logf(c, "write", len(p), tag)
+		return len(p), nil
+	}
 	if h.stream {
 		h.buf = append(h.buf, cp...)
 		h.written += len(cp)
@@ -512,6 +584,9 @@ func (c *Conn) ReadMsg() ([]byte, error) {
 		return nil, err
 	}
 	l := int(hdr[0])<<8 | int(hdr[1])
+	if c.MaxFrame > 0 && l > c.MaxFrame {
+		return nil, fmt.Errorf("%w: length prefix %d", ErrFrameTooLarge, l)
+	}
 	b := make([]byte, l)
 	if _, err := io.ReadFull(c, b); err != nil {
 		return nil, err
